@@ -29,7 +29,7 @@ type c01pkt struct {
 	hash uint64
 }
 
-func c01Seq(rng *rand.Rand, n int, idBase uint32) []c01pkt {
+func c01Seq(rng *rand.Rand, n int, idBase uint32, keyEvery int) []c01pkt {
 	out := make([]c01pkt, 0, n+1)
 	var seqs [4]uint16
 	for i := 0; i < n; i++ {
@@ -55,6 +55,9 @@ func c01Seq(rng *rand.Rand, n int, idBase uint32) []c01pkt {
 				// dropping is only ever decided at key frames (C04), and these scenarios stay below the limit anyway
 				kit.FillBody(body, uint64(idBase)<<32|uint64(i))
 				body[0] = 0x41
+				if keyEvery > 0 && i%keyEvery == 0 && size >= 3 {
+					body[0] = 0x65 // IDR slice: starts a GOP in the cache (replay scenarios only)
+				}
 			}
 			p = kit.MakeRTP(ch, 96, rng.Intn(2) == 0, seqs[ch], uint32(i), idBase, body)
 		} else if ch == kit.ChAudio {
@@ -151,7 +154,7 @@ func runC01(c *kit.Ctx) {
 		if ci%10 == 0 {
 			n = 700 + rng.Intn(200)
 		}
-		seq := c01Seq(rng, n, uint32(ci)+1)
+		seq := c01Seq(rng, n, uint32(ci)+1, 0)
 		byPtr := map[format.Packet]int{}
 		for i, p := range seq {
 			byPtr[p.p] = i
@@ -373,7 +376,13 @@ func runC01(c *kit.Ctx) {
 		}
 		rng := c.SubRng("c01race", ri)
 		n := 100 + rng.Intn(500)
-		seq := c01Seq(rng, n, uint32(ri)+0x10000)
+		replay := ri%2 == 1 // joiners ask for the cache replay (parameter sets + current GOP), GOP cache on
+		keyEvery := 0
+		if replay {
+			keyEvery = 10 + rng.Intn(30)
+		}
+		config.VerifSet(false, replay, "", 5)
+		seq := c01Seq(rng, n, uint32(ri)+0x10000, keyEvery)
 		byPtr := map[format.Packet]int{}
 		for i, p := range seq {
 			byPtr[p.p] = i
@@ -401,7 +410,11 @@ func runC01(c *kit.Ctx) {
 					time.Sleep(10 * time.Microsecond)
 				}
 				cc.t0 = kit.H.Tick()
-				cc.cid = s.StartConsumeNoGopCache(cc.r, media.RTPPacket, "race")
+				if replay {
+					cc.cid = s.StartConsume(cc.r, media.RTPPacket, "race")
+				} else {
+					cc.cid = s.StartConsumeNoGopCache(cc.r, media.RTPPacket, "race")
+				}
 				cc.t1 = kit.H.Tick()
 				if cc.detachAt <= n {
 					for atomic.LoadInt64(&progress) < int64(cc.detachAt) {
@@ -439,7 +452,7 @@ func runC01(c *kit.Ctx) {
 		kit.RemoveAll(pert)
 		s.Close()
 		c.Eval(nc)
-		c.Distinct(fmt.Sprintf("race/n=%d/consumers=%d", n/100*100, nc))
+		c.Distinct(fmt.Sprintf("race/n=%d/consumers=%d/replay=%v", n/100*100, nc, replay))
 		if !ok {
 			c.Inconclusive("racy: sentinel not delivered")
 			continue
@@ -461,6 +474,9 @@ func runC01(c *kit.Ctx) {
 			}
 			// nothing published entirely before the attach began may be delivered (no replay requested)
 			for _, i := range idx {
+				if replay {
+					break // the replayed GOP legitimately predates the attach (its shape is C02's subject)
+				}
 				if pubEnd[i] < cc.t0 {
 					detail["packet"] = i
 					c.Violation("C01:packet-from-before-attach-delivered:racy", detail)
@@ -495,5 +511,6 @@ func runC01(c *kit.Ctx) {
 			}
 		}
 	}
+	config.VerifSet(false, false, "", 5)
 	c01RunTransports(c)
 }
